@@ -48,13 +48,25 @@ public:
 
   virtual bool is_fully_specified() const;
 
+  virtual CPPDeclaration *substitute_decl(SubstDecl &subst,
+                                          CPPScope *current_scope,
+                                          CPPScope *global_scope);
+  virtual CPPType *resolve_type(CPPScope *current_scope,
+                                CPPScope *global_scope);
+  virtual bool is_tbd() const;
+
   virtual bool is_default_constructible() const;
   virtual bool is_copy_constructible() const;
   virtual bool is_destructible() const;
 
   virtual void output(std::ostream &out, int indent_level, CPPScope *scope,
                       bool complete) const;
+  virtual void output_instance(std::ostream &out, int indent_level,
+                               CPPScope *scope,
+                               bool complete, const std::string &prename,
+                               const std::string &name) const;
   virtual SubType get_subtype() const;
+  virtual CPPFunctionType *as_function_type();
   virtual CPPClosureType *as_closure_type();
 
 protected:
